@@ -19,6 +19,7 @@ inductive Mode
   | frame (st : FrameSt)
   | conn (run : ConnRun)
   | gates
+  | pair (st : PairSt)
   | tables (name : String)
   | codec (st : CodecSt)
 
@@ -33,6 +34,7 @@ partial def loop (h : IO.FS.Stream) (ln : Nat) (m : Mode) (r : Report) : IO Repo
       match allocStart rest with
       | some st => loop h (ln + 1) (.alloc st []) { r with traces := r.traces + 1 }
       | none => loop h (ln + 1) .none (r.mdiff "parse" s!"line {ln}: bad trace header `{line}`")
+    | _ :: "pair" :: rest => loop h (ln + 1) (.pair (pairStart rest)) { r with traces := r.traces + 1 }
     | _ :: "gates" :: _ => loop h (ln + 1) .gates { r with traces := r.traces + 1 }
     | _ :: "conn" :: rest =>
       match connStart rest with
@@ -59,6 +61,9 @@ partial def loop (h : IO.FS.Stream) (ln : Nat) (m : Mode) (r : Report) : IO Repo
         let (st', r') := allocLine st ln (line.drop 2).toString r
         loop h (ln + 1) (.alloc st' stack) r'
       else loop h (ln + 1) m (r.mdiff "parse" s!"line {ln}: unexpected `{line}`")
+    | .pair st =>
+      if line = "END" then loop h (ln + 1) .none r
+      else loop h (ln + 1) m (pairLine st ln line r)
     | .gates =>
       if line = "END" then loop h (ln + 1) .none r
       else loop h (ln + 1) m (gatesLine ln line r)
